@@ -264,11 +264,20 @@ func (s *scope) inlineCall(pr *proof, a Lin, call *ssa.Call, callee *ssa.Functio
 	if pr.seenSp[key] {
 		return
 	}
+	var nest [][]int
 	if idx < 0 {
 		idx = 0
 	}
 	rets := returnsOf(callee)
 	if len(rets) == 0 || len(rets) > 12 {
+		return
+	}
+	for _, r := range rets {
+		if idx >= len(r.Results) {
+			return
+		}
+	}
+	if !pr.begin(key) {
 		return
 	}
 	prefix := fmt.Sprintf("%s%s@%p/", s.prefix, callee.Name(), call)
@@ -289,8 +298,7 @@ func (s *scope) inlineCall(pr *proof, a Lin, call *ssa.Call, callee *ssa.Functio
 				continue
 			}
 		}
-		sub := s.b.newProof()
-		sub.atoms, sub.done, sub.seenSp, sub.errNil, sub.errNon = pr.atoms, pr.done, pr.seenSp, pr.errNil, pr.errNon
+		sub := pr.child()
 		rv := r.Results[idx]
 		if wantLen {
 			if l, ok := cs.lenLin(rv, sub); ok {
@@ -300,14 +308,13 @@ func (s *scope) inlineCall(pr *proof, a Lin, call *ssa.Call, callee *ssa.Functio
 			sub.add(eq(a, cs.lin(rv, sub))...)
 		}
 		cs.blockFacts(sub, r.Block())
-		cases = append(cases, sub.cons)
-		pr.queue = append(pr.queue, sub.queue...)
-		pr.splits = append(pr.splits, sub.splits...)
+		cc, ns := pr.absorb(sub)
+		cases, nest = append(cases, cc), append(nest, ns)
 	}
 	if len(cases) == 0 {
-		cases = [][]Cons{{{linConst(1)}}}
+		cases, nest = [][]Cons{{{linConst(1)}}}, [][]int{nil}
 	}
-	pr.addSplit(key, cases)
+	pr.pushSplit(key, cases, nest)
 }
 
 // paramLenContract: lengths of parameters of the function under analysis are
